@@ -99,7 +99,12 @@ func (w *World) genAddCheckpoint(rq *request, r *core.Rand) {
 	rq.branch = b
 	rq.old = recN
 	rq.n = recN + int64(r.Intn(int(g.size()-recN)+1))
-	if r.Chance(1, 5) {
+	if r.Chance(2, 5) {
+		rq.n = recN + int64(r.Intn(260))
+		if rq.n > g.size() {
+			rq.n = g.size()
+		}
+	} else if r.Chance(1, 5) {
 		rq.n = recN + int64(r.Intn(3))
 		if rq.n > g.size() {
 			rq.n = g.size()
@@ -225,8 +230,21 @@ func (w *World) genAddEntries(rq *request, r *core.Rand) {
 	rq.start = next
 	var ticket []byte
 	if r.Chance(p.DefectPct, 100) {
-		defects := []string{"start-ahead", "start-behind", "end-unknown", "wrong-entry", "wrong-proof", "stale-ticket", "forged-ticket", "end-mirror", "unaligned", "far-behind"}
+		defects := []string{"start-ahead", "start-ahead", "start-ahead", "start-behind", "end-unknown", "wrong-entry", "wrong-proof", "stale-ticket", "stale-ticket", "ticket-cut", "ticket-cut", "overshoot-cut", "overshoot-cut", "forged-ticket", "end-mirror", "unaligned", "far-behind"}
 		rq.defect = defects[r.Intn(len(defects))]
+	}
+	cutAfter := -1
+	// an older ticketed size that lies inside the partial tile at the upload
+	// frontier: committing there cuts a tile that was only uploaded wider
+	var sameTile []ticketRec
+	for _, t := range w.tickets {
+		if t.origin == g.origin && t.inc == w.inc.n && t.n > mirN && t.n < next && t.n/256 == next/256 && t.n%256 != 0 {
+			sameTile = append(sameTile, t)
+		}
+	}
+	if len(sameTile) > 0 && r.Chance(1, 2) {
+		rq.defect = "ticket-cut"
+		w.sim.Probe("req.ticket-cut.same-tile")
 	}
 	corruptPkg, corruptKind := -1, ""
 	switch rq.defect {
@@ -272,6 +290,47 @@ func (w *World) genAddEntries(rq *request, r *core.Rand) {
 		corruptPkg, corruptKind = 0, "entry"
 	case "wrong-proof":
 		corruptPkg, corruptKind = 0, "proof"
+	case "overshoot-cut":
+		// upload towards the pending checkpoint, but the body ends right after the
+		// package that crosses an older ticketed size: the frontier is then beyond
+		// a size for which a ticket exists, without any commit
+		rq.defect = ""
+		for _, t := range w.tickets {
+			if t.origin == g.origin && t.inc == w.inc.n && t.n > mirN && t.n > next && t.n < recN {
+				pk := int((t.n+255)/256 - next/256) // packages needed to pass t.n
+				total := int((recN+255)/256 - next/256)
+				if pk >= 1 && pk < total {
+					cutAfter = pk
+					rq.defect = "overshoot-cut"
+					w.sim.Probe("req.overshoot-cut")
+					break
+				}
+			}
+		}
+	case "ticket-cut":
+		// commit at an older, ticketed size that lies behind the upload frontier:
+		// the checkpoint cuts a tile that was uploaded wider (or not at all)
+		var cands []ticketRec
+		for _, t := range w.tickets {
+			if t.origin == g.origin && t.inc == w.inc.n && t.n > mirN && t.n <= next && t.n <= g.size() {
+				cands = append(cands, t)
+			}
+		}
+		if len(sameTile) > 0 {
+			cands = sameTile
+		}
+		if len(cands) == 0 {
+			rq.defect = ""
+		} else {
+			t := cands[r.Intn(len(cands))]
+			ticket = bytes.Clone(t.ticket)
+			rq.end = t.n
+			rq.start = t.n
+			if r.Chance(1, 2) && t.n > 0 {
+				rq.start = t.n - int64(r.Intn(int(min(t.n, 300))))
+			}
+			w.sim.Probe("req.ticket-cut")
+		}
 	case "stale-ticket", "forged-ticket":
 		if len(w.tickets) > 0 {
 			t := w.tickets[r.Intn(len(w.tickets))]
@@ -307,7 +366,10 @@ func (w *World) genAddEntries(rq *request, r *core.Rand) {
 		zw.Close()
 		body = io.NopCloser(bytes.NewReader(raw.Bytes()))
 	} else {
-		body = &segReader{w: w, req: rq, segs: rq.segs}
+		body = &segReader{w: w, req: rq, segs: rq.segs, cutAfterSeg: cutAfter}
+		if cutAfter >= 0 {
+			rq.faulted = true
+		}
 	}
 	hreq := httptest.NewRequest("POST", "/add-entries", body)
 	hreq.Header.Set("Content-Type", "application/octet-stream")
